@@ -292,6 +292,33 @@ func (h *H) opDec(u *universe.UStruct, input []byte, dest reflect.Value, walk bo
 	return true, n, &kept{u, dest, buf, shown}
 }
 
+// decRaw: one decode into a fresh destination, nothing rendered or recorded
+func decRaw(u *universe.UStruct, input []byte) (dest reflect.Value, buf []byte, res string, n int) {
+	dest = reflect.New(u.Type)
+	buf = append(make([]byte, 0, len(input)+3), input...)
+	var err error
+	res = safely(func() string {
+		n, err = frugal.DecodeObject(buf, dest.Interface())
+		if err != nil {
+			return errClass(err)
+		}
+		return "ok"
+	})
+	return
+}
+
+// showRaw renders a decRaw result as opDec renders its own
+func showRaw(dest reflect.Value, buf []byte, res string, n int) string {
+	if res != "ok" {
+		return res
+	}
+	return "ok " + strconv.Itoa(n) + " " + showDecoded(dest.Elem(), buf)
+}
+
+func decLine(u *universe.UStruct, input []byte) string {
+	return fmt.Sprintf("dec %d %s %s", u.Sid, hexOrDash(input), showValue(reflect.New(u.Type).Elem()))
+}
+
 // stability: after more decodes / GCs / buffer overwrites the decoded values must not change
 func (h *H) checkKept(ks []*kept) {
 	runtime.GC()
